@@ -127,15 +127,15 @@ def run(prop, tier, seed, known):
             def notes(k):
                 iv, p = [], []
                 for _ in range(k):
-                    s = rng.randint(0, 8) * 0.25
-                    iv.append([s, s + rng.randint(1, 6) * 0.25])
-                    p.append(440.0 * 2 ** (rng.choice([0, 0, 25, 50, 75, 100, 1200]) / 1200.0))
+                    s = rng.randint(0, 8) * 0.25 + rng.choice([0.0, 0.0, 0.05, 0.1])
+                    iv.append([s, s + rng.randint(1, 6) * 0.25 + rng.choice([0.0, 0.05])])
+                    p.append(440.0 * 2 ** (rng.choice([0, 0, 25, 50, 75, 100, 1200, 51, -51, -50, -25, 49, -49]) / 1200.0))
                 return np.array(iv, dtype=float).reshape(-1, 2), np.array(p, dtype=float)
             ri, rp = notes(rng.randint(0, 3))
             ei, ep = notes(rng.randint(0, 3))
             strict = rng.random() < 0.5
             ratio = rng.choice([None, 0.25, 0.5])
-            ot, pt, omin = 0.25, 50.0, 0.25
+            ot, pt, omin = rng.choice([0.25, 0.05, 0.1]), rng.choice([50.0, 25.0]), rng.choice([0.25, 0.05])
             cmp = (lambda a, b: a < b) if strict else (lambda a, b: a <= b)
             rd = lambda x: round(x, 4)
             on = lambda i, j: cmp(rd(abs(ri[i, 0] - ei[j, 0])), ot)
